@@ -50,6 +50,28 @@ func (d *Doc) get(k string) *Doc { // case-insensitive; nil if absent
 	return nil
 }
 
+// logicalNum: the value of a decimal as a fraction; for exponents so far out that the fraction cannot be written down, the
+// coefficient (without trailing zeros) and the exponent
+func logicalNum(d decimal.Decimal) string {
+	if e := d.Exponent(); e > 100000 || e < -100000 {
+		c := new(big.Int).Set(d.Coefficient())
+		ex := int64(e)
+		ten := big.NewInt(10)
+		for c.Sign() != 0 {
+			q, r := new(big.Int).QuoRem(c, ten, new(big.Int))
+			if r.Sign() != 0 {
+				break
+			}
+			c, ex = q, ex+1
+		}
+		if c.Sign() == 0 {
+			return "n:0"
+		}
+		return fmt.Sprintf("n:%se%d", c.String(), ex)
+	}
+	return "n:" + ratOf(d).RatString()
+}
+
 func ratOf(d decimal.Decimal) *big.Rat {
 	r := new(big.Rat).SetInt(d.Coefficient())
 	e := int64(d.Exponent())
@@ -108,7 +130,10 @@ func logicalV(v reflect.Value) string {
 	}
 	if v.CanInterface() {
 		if d, ok := v.Interface().(decimal.Decimal); ok {
-			return "n:" + ratOf(d).RatString()
+			return logicalNum(d)
+		}
+		if nd, ok := v.Interface().(NDec); ok {
+			return logicalNum(decimal.Decimal(nd))
 		}
 	}
 	switch v.Kind() {
@@ -221,6 +246,10 @@ func renderNum(d decimal.Decimal, st *Style) *TV {
 		return asF()
 	case "dec":
 		return tvDec(d)
+	case "ndec": // a named type over decimal.Decimal
+		t := tvDec(d)
+		t.N = 1
+		return t
 	case "int":
 		if isWholeSmall(d) {
 			k := "int"
